@@ -99,10 +99,11 @@ type ContractSet struct {
 	Units     map[string][]string // unit -> props
 	Files     []string
 	Ghosts    map[string]*GhostField // "Type.field"
+	Guarded   map[string]string      // "Type.field" -> lock field name (same struct)
 }
 
 func newContractSet() *ContractSet {
-	return &ContractSet{Funcs: map[string]*FuncContract{}, Preds: map[string]*Pred{}, SpecFuncs: map[string]*SpecFunc{}, Units: map[string][]string{}, Ghosts: map[string]*GhostField{}}
+	return &ContractSet{Funcs: map[string]*FuncContract{}, Preds: map[string]*Pred{}, SpecFuncs: map[string]*SpecFunc{}, Units: map[string][]string{}, Ghosts: map[string]*GhostField{}, Guarded: map[string]string{}}
 }
 
 var (
@@ -220,6 +221,12 @@ func (cs *ContractSet) loadContractFile(path, pkgPath string) error {
 				}
 				i := strings.LastIndex(fs[0], ".")
 				cs.Ghosts[fs[0]] = &GhostField{Type: fs[0][:i], Name: fs[0][i+1:], Sort: fs[1], Where: where}
+			case "guarded":
+				fs := strings.Fields(arg)
+				if len(fs) != 2 || !strings.Contains(fs[0], ".") {
+					return fmt.Errorf("%s: verif:guarded Type.field lockField", where)
+				}
+				cs.Guarded[fs[0]] = fs[1]
 			case "specfunc":
 				if err := cs.addSpecFunc(arg); err != nil {
 					return fmt.Errorf("%s: %v", where, err)
